@@ -281,6 +281,11 @@ impl Report {
     }
     pub fn finish(mut self, opts: &Opts) {
         self.info.retain(|k, _| !k.starts_with("~sampled:"));
+        let (noise, noise_ok) = crate::noise::take_counts();
+        if noise > 0 {
+            self.info.insert("sum:noise_calls_interleaved".into(), json!(noise));
+            self.info.insert("sum:noise_calls_that_unexpectedly_succeeded".into(), json!(noise_ok));
+        }
         let hashes: Vec<u64> = self.distinct.iter().copied().collect();
         let out = json!({
             "prop": self.prop,
